@@ -103,7 +103,7 @@ func RewriteClause(decls map[ast.PredicateSym]*ast.Decl, clause ast.Clause) ast.
 				premises = append(premises, delayNegAtom[i])
 				toRemove = append([]int{i}, toRemove...)
 			}
-			for i := range toRemove {
+			for _, i := range toRemove {
 				negAtomTail := []ast.Term{}
 				varsTail := []map[ast.Variable]bool{}
 				if i+1 < len(delayNegAtom) {
